@@ -164,8 +164,8 @@ def audit(modules):
 
 # ---------------------------------------------------------------- go
 
-def build_harness():
-    """Build vh (tag verif) against /repo's current working tree. go.sum is
+def build_harness(extra_tags=()):
+    """Build vh (tag verif, plus per-property extra tags) against /repo's current working tree. go.sum is
     refreshed from /repo; /repo itself is never the main module."""
     with FileLock("build"):
         os.makedirs(os.path.join(WORK, "bin"), exist_ok=True)
@@ -174,8 +174,9 @@ def build_harness():
         alt = os.path.join(WORK, "harness.go.mod")
         open(alt, "w").write(mod)
         shutil.copyfile(os.path.join(REPO, "go.sum"), os.path.join(WORK, "harness.go.sum"))
-        out = os.path.join(WORK, "bin", "vh")
-        rc, o = sh(["go", "build", "-modfile", alt, "-tags", "verif", "-o", out, "./cmd/vh"], cwd=HARNESS, env=GOENV, timeout=1800)
+        tags = ["verif"] + sorted(extra_tags)
+        out = os.path.join(WORK, "bin", "vh" + "".join("-" + t for t in tags[1:]))
+        rc, o = sh(["go", "build", "-modfile", alt, "-tags", ",".join(tags), "-o", out, "./cmd/vh"], cwd=HARNESS, env=GOENV, timeout=1800)
     return rc, o, out
 
 
